@@ -501,6 +501,13 @@ Proof.
   - apply wp_panic. apply invU_refl; auto.
 Qed.
 
+Lemma keepsU_op_default (E : env key V query cstate) body :
+  keepsU (replace_with E (ret tt) body).
+Proof.
+  intros w Hw Hu. apply replace_build_U; [exact Hw | exact Hu|]. intros w0 Hw0 Hl0 _. apply wp_ret.
+  apply invU_refl; [exact Hw0 | apply Um_len0; exact Hl0 | reflexivity].
+Qed.
+
 (* a local container built by a [keepsU] computation under finally_drop *)
 Lemma keepsU_op_finally (E : env key V query cstate) (c : MV unit) body :
   keepsU c -> keepsU (replace_with E (finally_drop E c) body).
@@ -1604,6 +1611,20 @@ Proof.
     apply op_sub_stays; apply WFx_get_s; exact Hx.
   - (* SFormat *) apply run_s_U; [exact Hx | exact Hu|]. apply stays_keepsU. apply stays_format_s.
   - (* SSerde *) apply run_s_U; [exact Hx | exact Hu|]. apply keepsU_op_finally. apply keepsU_visit_seq. exact Hh.
+  - (* OCloneFrom *)
+    destruct (Nat.eqb_spec (cap (get_m r x)) (cap (get_m r' x))) as [Heq|Hne].
+    + apply run_m_U_at; [exact Hu|].
+      apply op_clone_m_U; [exact Hh | apply WFx_get_m; exact Hx | apply UniqX_get_m; exact Hu
+                           | apply WFx_get_m; exact Hx | apply UniqX_get_m; exact Hu | exact Heq].
+    + cbn [fst snd]. exact Hu.
+  - (* SCloneFrom *)
+    destruct (Nat.eqb_spec (cap (get_s r x)) (cap (get_s r' x))) as [Heq|Hne].
+    + apply run_s_U_at; [exact Hu|].
+      apply op_clone_s_U; [exact Hh | apply WFx_get_s; exact Hx | apply UniqX_get_s; exact Hu
+                           | apply WFx_get_s; exact Hx | apply UniqX_get_s; exact Hu | exact Heq].
+    + cbn [fst snd]. exact Hu.
+  - (* ODefault *) apply run_m_U; [exact Hx | exact Hu|]. apply keepsU_op_default.
+  - (* SDefault *) apply run_s_U; [exact Hx | exact Hu|]. apply keepsU_op_default.
   - (* OIterNth *) apply run_m_U; [exact Hx | exact Hu|]. apply stays_keepsU. apply stays_iter_nth_session.
   - (* ODrainNth *) apply run_m_U; [exact Hx | exact Hu|]. apply keepsU_drain_nth_session.
   - (* OIntoNth *) apply run_m_U; [exact Hx | exact Hu|].
